@@ -129,6 +129,12 @@ def gen_concurrent_case(rng: random.Random, tier: str, backends=('dict',),
                          'at': rng.choice([0, rng.randint(1, 80)])})
             hi += 1
             maxn += 1
+        if backend == 'maildir' and rng.random() < 0.15:
+            # another process holds the UID-list lock file for a while
+            acts.append({'kind': 'extlock', 'mailbox': 'INBOX',
+                         'hold': rng.choice([0.005, 0.02, 0.05, 0.12, 0.3,
+                                             0.7]),
+                         'at': rng.choice([0, rng.randint(1, 60)])})
         if acts:
             steps.append({'actions': acts, 'sched_seed': maybe_seed(rng)})
     # wind down: release holds, end idles, NOOP everywhere
